@@ -46,6 +46,23 @@ let handle = function
        | Err _ -> "Err unsupported"
        | Panic _ -> "Panic"
        | OutOfFuel -> "OutOfFuel")
+  | ["rsa"; min_len; pk] ->
+      (match c12_rsa_parse (bytes_of_hex pk) (num min_len) with
+       | Ok (e, n) -> "Ok " ^ hex_of_bytes e ^ " " ^ hex_of_bytes n
+       | Err e -> if int_of_n e = 1 then "Err invalid" else "Err unsupported"
+       | Panic _ -> "Panic" | OutOfFuel -> "OutOfFuel")
+  | ["renc"; e; n] ->
+      (match c12_rsa_encode (bytes_of_hex e) (bytes_of_hex n) with
+       | Ok k -> "Ok " ^ hex_of_bytes k | Err _ -> "Err" | Panic _ -> "Panic" | OutOfFuel -> "OutOfFuel")
+  | ["ksz"; alg; pk] ->
+      (match c12_key_size (num alg) (bytes_of_hex pk) with
+       | Ok k -> "Ok " ^ string_of_int (int_of_n k)
+       | Err e -> if int_of_n e = 1 then "Err invalid" else "Err unsupported"
+       | Panic _ -> "Panic" | OutOfFuel -> "OutOfFuel")
+  | "zs" :: apex :: nkeys :: n :: rest ->
+      let rec zr k ws = if k = 0 then [] else (match ws with o :: t :: tl -> (name_of o, num t) :: zr (k - 1) tl | _ -> failwith "short zone") in
+      let out = c12_sign_zone (name_of apex) (nat_of_int (int_of_string nkeys)) (zr (int_of_string n) rest) in
+      if out = [] then "-" else String.concat " " (List.map (fun (o, t) -> hex_of_name o ^ ":" ^ string_of_int (int_of_n t)) out)
   | ["lc"; owner] -> string_of_int (int_of_n (c12_label_count (name_of owner)))
   | ["wce"; labels; owner] ->
       (match c12_wce (num labels) (name_of owner) with
